@@ -12,6 +12,7 @@ import (
 	"fmt"
 	"os"
 	"regexp"
+	"sort"
 	"strings"
 	"testing"
 )
@@ -131,7 +132,7 @@ func c12Verdict(r *vReport, errs []*Error, rp map[string]any) {
 func TestVerifC12(t *testing.T) {
 	r := vNewReport("C12")
 	defer r.Write(t)
-	r.Extra["rule"] = "every non-exempt scalar value position of the 4 maximal seeds (its table key given by the documentation-derived schema) x 12 contexts + 5 special functions x 12 embeddings (bare, upper-cased, nested in &&, call argument, after another placeholder, second call argument, condition of a && b || c, argument of hashFiles, right / left operand of == / != next to an operand of unknown type, negated operand of <, index; for if: keys also without the ${{ }} marker), complete product; plus every position with one neighbour replaced by a value of another type / form x {secrets, github, always} x 2 embeddings; oracle = transcription of GitHub's context availability table; class = (table key, name, allowed?); non-trivial = not allowed"
+	r.Extra["rule"] = "every non-exempt scalar value position of the 4 maximal seeds, of the project caller and of 4 small seeds in which a section stands without its usual sibling (strategy without matrix, ...) (its table key given by the documentation-derived schema) x 12 contexts + 5 special functions x 12 embeddings (bare, upper-cased, nested in &&, call argument, after another placeholder, second call argument, condition of a && b || c, argument of hashFiles, right / left operand of == / != next to an operand of unknown type, negated operand of <, index; for if: keys also without the ${{ }} marker), complete product; plus every position with one neighbour replaced by a value of another type / form x {secrets, github, always} x 2 embeddings; oracle = transcription of GitHub's context availability table; class = (table key, name, allowed?); non-trivial = not allowed"
 	r.Extra["assumptions"] = []string{"the availability table is the transcription frozen in lib_catalogue.go (appendix E)", "for the jobs context outside workflow_call outputs 'undefined variable' counts as the report"}
 	if raw := vReplayInput(); raw != nil {
 		var rp map[string]any
@@ -161,6 +162,27 @@ func TestVerifC12(t *testing.T) {
 		c12ProjectLint[pc.Seed] = vProjectLint(t)
 		cats = append(cats, pc)
 	}
+	// small extra seeds: shapes in which a section stands WITHOUT the sibling it usually has (a strategy
+	// without a matrix, a container / service without credentials, a job with nothing but the
+	// mandatory keys and one optional one)
+	for name, src := range map[string]string{
+		"strategy-without-matrix": "on: push\njobs:\n  a:\n    runs-on: ubuntu-latest\n    strategy:\n      fail-fast: true\n      max-parallel: 2\n    steps:\n      - run: echo\n",
+		"strategy-fail-fast-only": "on: push\njobs:\n  a:\n    runs-on: ubuntu-latest\n    strategy:\n      fail-fast: false\n    steps:\n      - run: echo\n",
+		"container-image-only":    "on: push\njobs:\n  a:\n    runs-on: ubuntu-latest\n    container: img\n    services:\n      db:\n        image: pg\n    steps:\n      - run: echo\n",
+		"job-timeout-only":        "on: push\njobs:\n  a:\n    runs-on: ubuntu-latest\n    timeout-minutes: 5\n    continue-on-error: false\n    steps:\n      - run: echo\n        timeout-minutes: 5\n        continue-on-error: false\n",
+	} {
+		ec, err := vBuildCatalogue(name, src)
+		if err != nil {
+			r.HarnessError("%v", err)
+			continue
+		}
+		if res := vLint(src, nil); res.Err != nil || res.Panic != "" || len(res.Errs) > 0 {
+			r.HarnessError("extra seed %s does not lint clean: %v", name, vDiagStrings(res.Errs))
+			continue
+		}
+		cats = append(cats, ec)
+	}
+	sort.Slice(cats, func(i, j int) bool { return cats[i].Seed < cats[j].Seed })
 	var idx int64
 	keysCovered := map[string]bool{}
 	for _, c := range cats {
